@@ -103,7 +103,12 @@ def parse(text, mode):
     d = ac.to_dict()
     genes = sorted((canon_gene(g) for g in d["genes"]), key=lambda t: json.dumps(t, sort_keys=True))
     fcs = sorted((canon_fc(c) for c in d["feature_collections"]), key=lambda t: json.dumps(t, sort_keys=True))
-    return dict(genes=genes, fcs=fcs, sequence=None if ac.sequence is None else str(ac.sequence))
+    # the one order-bearing fact that is kept: the start coordinates of the genes / feature collections in the order in which
+    # the returned collection lists them (every mode returns its members sorted by position, whatever their tags spell)
+    gene_starts = [min(min(t["exon_starts"]) for t in g["transcripts"]) for g in d["genes"]]
+    gene_keys = [g.get("locus_tag") or "tx:" + "|".join(sorted(str(t.get("transcript_id")) for t in g["transcripts"])) for g in d["genes"]]
+    fc_starts = [min(min(f["interval_starts"]) for f in c["feature_intervals"]) for c in d["feature_collections"]]
+    return dict(genes=genes, fcs=fcs, sequence=None if ac.sequence is None else str(ac.sequence), gene_starts=gene_starts, fc_starts=fc_starts, gene_keys=gene_keys)
 
 
 # ---------------------------------------------------------------------------------------------------------
